@@ -507,6 +507,8 @@ func checkC05(c *Check) {
 	// the fields of the forwarded login come out of the patterns: a group that rejects
 	// genuine values (a key ID with a space) silently turns a certificate login into 'unknown'
 	importRules(c, "C06", checkC06, "login-fields: ", "group-alphabet-adequacy", "dispatch-extraction-agreement", "line-reaches-dispatcher", "line-dispatched-once", "spacing-preserved", "line-integrity", "record-as-written")
+	// the write whose success the hand-over depends on is synchronous
+	eventWriterUnbuffered(c, "write-before-forward")
 	// 1b. entry functions are referenced only from the dispatch
 	checkEntryRefs(c, d)
 	// 6. wiring
